@@ -34,6 +34,8 @@ STD_VALUES = {
     "core::ops::range::RangeInclusive::<Idx>::new": lambda a, b: ("range-incl", a, b),
     "core::ops::range::RangeInclusive::<Idx>::contains": _range_contains,
     "core::ops::range::Range::<Idx>::contains": _range_contains,
+    "core::convert::From::from": lambda a: int(a),          # bool -> integer, integer -> wider integer: the same number
+    "core::convert::Into::into": lambda a: int(a),
     "core::num::<impl i64>::unsigned_abs": lambda a: abs(a),
     "core::num::<impl i64>::is_negative": lambda a: a < 0,
     "core::num::<impl i64>::is_positive": lambda a: a > 0,
@@ -49,6 +51,14 @@ def _term_value(t):
         return t[1]
     if t[0] == "aggr" and not t[3]:
         return ("enum", t[1], t[2])
+    if t[0] == "call" and t[1] == "core::ops::range::RangeInclusive::<Idx>::new" and len(t[2]) == 2:
+        a, b = _term_value(t[2][0]), _term_value(t[2][1])      # a `const R: RangeInclusive<_> = lo..=hi`
+        return ("range-incl", a, b) if a is not UNK and b is not UNK else UNK
+    if t[0] == "aggr" and t[1] in ("core::ops::range::Range", "core::ops::range::RangeInclusive"):
+        f = dict(t[3])
+        a, b = _term_value(f["start"]) if "start" in f else UNK, _term_value(f["end"]) if "end" in f else UNK
+        if a is not UNK and b is not UNK:
+            return ("range" if t[1].endswith("::Range") else "range-incl", a, b)
     return UNK
 
 
